@@ -1,5 +1,6 @@
 import CCT.Model.Keys
 import CCT.Props.C09
+import CCT.Ref.Laws
 /-!
 # C19 — key material round-trips losslessly (the RFC 8032 part is differential: see the evidence)
 
@@ -118,5 +119,14 @@ theorem keyfiles_reject_length (pri pub : Bytes) (h : pri.length ≠ 32 ∨ pub.
   · have h2 : pub.length ≠ 32 := by cases h with | inl h => exact absurd h1 h | inr h => exact h
     simp [keyfilesToKeys, privFromBytes, pubFromBytes, h1, h2, bind, Except.bind]
   · simp [keyfilesToKeys, privFromBytes, h1, bind, Except.bind]
+
+/-! ## the reference implementation the model is run with -/
+
+/-- the Lean transcription of RFC 8032 that the driver runs satisfies the four *shape* laws of `Crypto` (64-byte signatures, 32-byte public
+keys, all bytes); its correctness law — the only other thing the theorems assume of the primitive — is compared with OpenSSL, not proved -/
+theorem reference_shape_laws :
+    (∀ s m, (Ref.refCrypto.sign s m).length = 64) ∧ (∀ s m, ∀ b ∈ Ref.refCrypto.sign s m, b < 256) ∧
+    (∀ s, (Ref.refCrypto.pubOf s).length = 32) ∧ (∀ s, ∀ b ∈ Ref.refCrypto.pubOf s, b < 256) :=
+  ⟨Ref.ref_sign_len, Ref.ref_sign_byte, Ref.ref_pub_len, Ref.ref_pub_byte⟩
 
 end CCT.C19
